@@ -808,8 +808,17 @@ def rule_l10(F):
             if not (mir.is_place_op(a) and mir.is_place_op(c)):
                 continue
             sides = []
+            def direct_len(l, depth=0):
+                """the `len` call whose result this value IS (through plain copies) - not the lengths that went into building the collection"""
+                out = []
+                for d in defs.whole_defs(l):
+                    if d[2] == "call" and d[0] in lens:
+                        out.append(d[0])
+                    elif d[2] == "assign" and d[3]["rv"]["k"] == "use" and mir.is_place_op(d[3]["rv"]["o"]) and depth < 4:
+                        out += direct_len(d[3]["rv"]["o"][1][0], depth + 1)
+                return out
             for o in (a, c):
-                ls_ = [x for x in mir.back_calls(b, defs, o[1][0]) if x in lens]
+                ls_ = direct_len(o[1][0])
                 sides.append([str(b.mir["locals"][lens[x]["args"][0][1][0]].get("ty") or "") for x in ls_ if mir.is_place_op(lens[x]["args"][0])])
             if not sides[0] or not sides[1]:
                 continue
